@@ -475,6 +475,10 @@ func (cr *ChunkReader) parseChunkHeaderBytes(header []byte, l *int) (int64, stri
 	}
 
 	ind := bytes.Index(header[skip:], []byte{'\r', '\n'})
+	if ind > maxHeaderSize {
+		// the same limit as for a header that arrives in pieces
+		return 0, "", 0, errInvalidChunkFormat
+	}
 	cr.isFirstHeader = false
 
 	return chunkSize, sig, skip + ind + len(chunkHdrDelim) - stashLen, nil
